@@ -269,6 +269,48 @@ theorem unpivot_pivot_cells_partial (n nx : Nat) (xp : Nat → List Val) (yc : N
       exact hno ⟨i, hi.1, hi.2.1, hi.2.2⟩
     rw [if_pos this]
 
+/-- **unpivot ∘ pivot restores the rows** (unique `(x, y)` pairs, `agg = last`): the non-`None`
+cells of the pivot table and the rows of the table correspond one to one —
+(A) every row `i` is addressed by exactly one (x-group, y-label) pair, and that cell holds `zᵢ`;
+(B) every cell that is not `None` is addressed by exactly one row `i`, and holds `zᵢ`.
+Since `unpivot` lists exactly one output row `(x key, label, cell)` per (pivot row, label)
+(`unpivot_rows`), dropping the `None` cells leaves exactly the `(x, y, z)` rows of the table, with
+`y` rendered as label and the x key up to `cmp`-equality. -/
+theorem unpivot_pivot (n nx : Nat) (xp : Nat → List Val) (yc : Nat → Val)
+    (zs : List Cell) (hn : n ≠ 0) (hxp : ∀ i, (xp i).length = nx)
+    (huniq : ∀ i j, i < n → j < n → cmp (.tuple (xp i)) (.tuple (xp j)) = .eq →
+      cmp (.tuple [yc i]) (.tuple [yc j]) = .eq → i = j) :
+    let xyg := listbyG (xyKeys n xp yc)
+    let xg := listbyG (xyg.map fun g => xPart nx g.1)
+    let ys := listbyG ((xyg.map fun g => tupleGet nx g.1).map fun v => .tuple [v])
+    let cell := fun (gx gy : Grp) => pivotCell xyg nx zs .last gx.2 gy.1
+    (∀ i, i < n → ∃ gx ∈ xg, ∃ gy ∈ ys,
+        cmp (.tuple (xp i)) gx.1 = .eq ∧ cmp (.tuple [yc i]) gy.1 = .eq ∧
+        cell gx gy = .cell (zs.getD i .none) ∧
+        ∀ gx' ∈ xg, ∀ gy' ∈ ys, cmp (.tuple (xp i)) gx'.1 = .eq → cmp (.tuple [yc i]) gy'.1 = .eq →
+          gx' = gx ∧ gy' = gy) ∧
+    (∀ gx ∈ xg, ∀ gy ∈ ys, cell gx gy ≠ .cell .none → ∃ i, i < n ∧
+        cmp (.tuple (xp i)) gx.1 = .eq ∧ cmp (.tuple [yc i]) gy.1 = .eq ∧
+        cell gx gy = .cell (zs.getD i .none) ∧
+        ∀ j, j < n → cmp (.tuple (xp j)) gx.1 = .eq → cmp (.tuple [yc j]) gy.1 = .eq → j = i) := by
+  intro xyg xg ys cell
+  constructor
+  · intro i hi
+    obtain ⟨⟨gx, hgx, hex⟩, ⟨gy, hgy, hey⟩⟩ := pivot_addresses n nx xp yc hn hxp i hi
+    refine ⟨gx, hgx, gy, hgy, hex, hey, ?_, ?_⟩
+    · exact (unpivot_pivot_cells_partial n nx xp yc zs hn hxp gx gy hgx huniq).1 i hi hex hey
+    · intro gx' hgx' gy' hgy' hex' hey'
+      exact ⟨group_unique (listbyG_sorted _) hgx' hgx (cmp_eq_trans (cmp_eq_symm hex') hex),
+             group_unique (listbyG_sorted _) hgy' hgy (cmp_eq_trans (cmp_eq_symm hey') hey)⟩
+  · intro gx hgx gy hgy hne
+    have hp := unpivot_pivot_cells_partial n nx xp yc zs hn hxp gx gy hgx huniq
+    by_cases hex : ∃ i, i < n ∧ cmp (.tuple (xp i)) gx.1 = .eq ∧ cmp (.tuple [yc i]) gy.1 = .eq
+    · obtain ⟨i, hi, hix, hiy⟩ := hex
+      refine ⟨i, hi, hix, hiy, hp.1 i hi hix hiy, ?_⟩
+      intro j hj hjx hjy
+      exact huniq j i hj hi (cmp_eq_trans hjx (cmp_eq_symm hix)) (cmp_eq_trans hjy (cmp_eq_symm hiy))
+    · exact absurd (hp.2 hex) hne
+
 /-- **unpivot**: every row of the pivot table gives one row per label column: the x cells, the
 label (as a string) and the cell; rows in row-major order -/
 theorem unpivot_rows (p : VTable) (x : List String) (y z : String)
